@@ -148,6 +148,9 @@ def install(ex):
 
     @reg('exit')
     def _exit(ex, fr, a, d):
+        ga = ex.global_addr.get('p_in_child')
+        if ga is not None and ex.load(ga, 4) != 0:
+            raise PathEnd('ok')     # a forked child copy of the world ends here
         ex.violation('abort', 'exit', 'exit(%s) called' % (a[0],))
 
     B['_exit'] = _exit
